@@ -224,7 +224,7 @@ func (d *DiagDense) DiagFrom(m Matrix) {
 	case RawTriangular:
 		mat := r.RawTriangular()
 		if mat.Diag == blas.Unit {
-			for i := 0; i < n; i += d.mat.Inc {
+			for i := 0; i < n*d.mat.Inc; i += d.mat.Inc {
 				d.mat.Data[i] = 1
 			}
 			return
